@@ -461,10 +461,20 @@ def input_paths_are_canonical(ctx, rid):
                 "the ignore root, and the same file is skipped from one working directory and formatted from another")
     fam = [f for f in p.fns.values() if f.crate == "rustfmt" and (f.root or f.id) == "rustfmt::determine_operation"]
     makers = [f for f in fam if f.locals[0] == "std::path::PathBuf"]
+    def sources(g, depth=0):
+        # calls the returned path derives from, looking into helpers of the binary that build it
+        out = []
+        for c in g.derived_from(0)["calls"]:
+            h = p.fns.get(c.name)
+            if h is not None and h.crate == "rustfmt" and depth < 2 and "PathBuf" in h.locals[0]:
+                out += sources(h, depth + 1)
+            else:
+                out.append(c)
+        return out
     for f in makers:
-        d = f.derived_from(0)
-        canon = [c for c in d["calls"] if c.name.endswith("Path::canonicalize") or c.name.endswith("fs::canonicalize")]
-        other = [c for c in d["calls"] if c.name.endswith("path::absolute") or c.name.endswith("env::current_dir")]
+        calls = sources(f)
+        canon = [c for c in calls if c.name.endswith("Path::canonicalize") or c.name.endswith("fs::canonicalize")]
+        other = [c for c in calls if c.name.endswith("path::absolute") or c.name.endswith("env::current_dir")]
         ok = bool(canon) and not other
         r.instance(rid, "%s: input path" % short(f.id), "ok" if ok else "violation", "%s:%d" % (f.file, f.line),
                    "derives from canonicalize: %s%s" % (bool(canon), (", also from %s" % [short(c.name) for c in other]) if other else ""))
